@@ -266,6 +266,32 @@ def run(ctx, model_available=True):
             except BaseException as e:  # noqa: BLE001
                 failures.append({"kind": "oracle", "sig": "C18:disconnect-cancelled" if isinstance(e, asyncio.CancelledError) else "C18:disconnect",
                                  "desc": f"connect followed by disconnect raised {type(e).__name__}", "case": {}})
+            if dist["event_sequences"] % 4 == 0:
+                # the same transport object connects again (a reconnect loop): a new broker client,
+                # which must be subscribed like the first one, and whose messages must be read
+                dist["reconnects"] = dist.get("reconnects", 0) + 1
+                try:
+                    loop.run_until_complete(cl.connect())
+                    fake2 = FakeAioMqtt.instances[-1]
+                    subs2 = sorted(t for t, _ in fake2.subscribed)
+                    subs1 = sorted(t for t, _ in fake.subscribed)
+                    topic = f"{inpre}/7/1/1/0/2"
+                    if fake2 is fake or subs2 != subs1 or not any(mqtt_match(f, topic) for f in subs2):
+                        failures.append({"kind": "oracle", "sig": "C18:resubscribe",
+                                         "desc": f"second connect of the same MQTTClient: the new broker client is subscribed to {subs2}, the first one was subscribed to {subs1}; a message on {topic!r} would not be received",
+                                         "case": {"in_prefix": inpre}})
+                    fake2.q.put_nowait(FakeMessage(topic, b"again"))
+                    spin(loop, 6)
+                    task = loop.create_task(cl.read())
+                    spin(loop, 4)
+                    if not task.done() or task.exception() is not None or task.result() != "7;1;1;0;2;again":
+                        failures.append({"kind": "oracle", "sig": "C18:resubscribe", "desc": "after connect, disconnect, connect on one MQTTClient a broker message is not read back", "case": {"in_prefix": inpre}})
+                    if not task.done():
+                        task.cancel()
+                        spin(loop, 2)
+                    loop.run_until_complete(cl.disconnect())
+                except BaseException as e:  # noqa: BLE001
+                    failures.append({"kind": "oracle", "sig": "C18:reconnect", "desc": f"connect / disconnect / connect / disconnect on one MQTTClient raised {type(e).__name__}: {e}", "case": {}})
             d.add(f"MQL {len(evs)} " + " ".join("E" if e[0] == "E" else f"M {enc_str(e[1])} {enc_bytes(e[2])}" for e in evs))
             exp.append(("l", evs, "".join((f"L {len(w[2:])}:{w[2:]}" if w.startswith("L ") else w) + "|" for w in want)))
     finally:
